@@ -162,12 +162,13 @@ def check(model: Model, report: Report) -> None:
     report.rule("R01.3", "descendant segment: input node > visited node > selector nesting; visitor chosen by the mode flag and started with default depth")
     report.rule("R01.4", "deterministic visitor: node first (pre-order), children in document order, recursion iff child is an array/object, child node = new_child(child, key)")
     report.rule("R01.5", "selector traces per kind of node value: name on objects, index/slice on arrays, wildcard on both, nothing on scalars; exact key lookup; children paired (value, key)")
+    report.rule("R01.8", "parse side: 16 whole-query token shapes build exactly the segments (child/descendant) and selectors (raw shorthand name, decoded quoted name, signed index, slice components, wildcard, filter) the grammar describes, in token order")
     report.rule("R01.9", "JSONPathNode.new_child keeps the value object, extends the location by exactly the key, propagates root")
     report.assumptions += [
         "A1: CPython iteration order of dict views, enumerate, list; A2: slice.indices/list[slice] implement RFC 9535 slice semantics",
         "composition of the per-construct shapes into the RFC nodelist for whole queries is argued (DESIGN 5/C01), not computed",
     ]
-    report.not_decided += ["parser side of structural selection beyond C03/C04 lexical rules", "arithmetic of index/slice (C07)"]
+    report.not_decided += ["parser side beyond the lexical rules of C03/C04 and the query/token shapes of R01.8", "arithmetic of index/slice (C07)"]
     check_finditer(model, report, "R01.1")
     _segrules.check_child_segment(model, report, "R01.2")
     _segrules.check_descendant_nesting(model, report, "R01.3")
@@ -177,6 +178,9 @@ def check(model: Model, report: Report) -> None:
     _selrules.check_slice(model, report, "R01.5")
     _selrules.check_wildcard(model, report, "R01.5", nondet=False)
     check_new_child(model, report, "R01.9")
+    from . import _shapes
+
+    _shapes.check_query_trees(model, report, "R01.8")
     report.extra["explanation"] = (
         "C01: traces of the 4 structural selectors x 7 kinds of node value (x index regions / slice-step regions), "
         "both segments, the deterministic visitor (x depth regions), the segment fold and new_child, each compared with the RFC shape."
